@@ -10,12 +10,12 @@ CLAIMED["C14"] = dict(
     note=TB + "Assumes the default executor eventually runs every submitted function and sync/atomic semantics.",
     ref="DESIGN.md §4 C14")
 CLAIMED["C16"] = dict(
-    technique="static analysis: dominance/edge-guard/order rules on the MPSC queue's SSA, atomic-access census, eviction-lock context analysis",
+    technique="static analysis: dominance/edge-guard/order rules on the MPSC queue's SSA, must-follow rule from every pop to its replay, atomic-access census, eviction-lock context analysis",
     text="Decides on every path of internal/deque/queue the disciplines exactly-once delivery rests on: reserve (index CAS) before publish and slot derived from the pre-CAS reads; result protocol of the slow path ('full' only when no capacity is left, 'resize' only after the odd-index CAS); the five-step publication order of resize; consumer returns nil only for an empty queue, awaits unpublished slots, clears before advancing, follows the jump marker; all slot accesses atomic; single consumer (TryPop only under the eviction lock); the cache never drops a task it could not push. Does not decide exactly-once/FIFO delivery over interleavings.",
     note=TB + "Assumes Go-memory-model sequential consistency of sync/atomic.",
     ref="DESIGN.md §4 C16")
 CLAIMED["C17"] = dict(
-    technique="static analysis: dominance/edge-guard/order rules on the ring and stripe table SSA, constant/array-length agreement, def-use slice, eviction-lock context analysis",
+    technique="static analysis: dominance/edge-guard/order rules on the ring and stripe table SSA, table-currency rule under the busy flag (inter-procedural through helper parameters), constant/array-length agreement, def-use slice, eviction-lock context analysis",
     text="Decides on every path of internal/lossy: reserve (tail CAS) before publish into the reserved slot, capacity test against the real array length, consumer hands over only non-nil loaded slots, clears before delivering/publishing, stops at the first unpublished slot, advances once per element; stripe table/slots written only in a busy region that is always left; expansion copies every stripe before publishing; DrainTo only under the eviction lock; the Add status flows only into the drain-scheduling decision (dropping reads cannot change results). Does not decide loss/duplication freedom over interleavings.",
     note=TB + "Assumes sequential consistency of sync/atomic.",
     ref="DESIGN.md §4 C17")
@@ -30,7 +30,7 @@ CLAIMED["C18"] = dict(
     note=TB + "Assumes Go uint64 arithmetic and purity of hash/rehash.",
     ref="DESIGN.md §4 C18")
 CLAIMED["C13"] = dict(
-    technique="static analysis: edge-dominance guards on unsigned deadline arithmetic, per-iteration path counting in the sweep loop, call-order dominance in maintenance, guarded-call tables for task replay",
+    technique="static analysis: edge-dominance guards on unsigned deadline arithmetic, per-iteration path counting in the sweep loop, value-flow (untruncated tick delta reaches the slot loop's control), shape analysis of the bucket rings on canonical configurations, call-order dominance in maintenance, guarded-call tables for task replay",
     text="Decides structural necessary conditions of timely sweeping: no wrap-around in deadline - wheelTime (ordering test or clamp, and the clamped value feeds slot selection); every unlinked timer is expired or re-added exactly once; expire only on deadline < wheel time with that time passed on; wheel clock advanced before sweeping and every level with a changed tick swept; maintenance replays writes (and the caller's task) before sweeping with a fresh clock sample; task replay schedules alive nodes / unschedules old ones. Does not decide the bucket/span/shift arithmetic, cascading or the 1.08 s bound.",
     note=TB + "Assumes a monotonic clock between sweeps.",
     ref="DESIGN.md §4 C13")
@@ -71,7 +71,7 @@ CLAIMED["C08"] = dict(
     note=TB + "Assumes sync.WaitGroup semantics and that the executor runs submitted closures.",
     ref="DESIGN.md §4 C08, §5 #12")
 CLAIMED["C10"] = dict(
-    technique="static analysis: " + PS + " (installer decision table, record invariants of the sibling loaders, guarded result assembly)",
+    technique="static analysis: " + PS + " (installer decision table, record invariants of the sibling loaders, complete and checked distribution of the bulk result map, guarded result assembly), who-may-finish census of the dispatch callbacks",
     text="Decides per path: installer decision table over (own record, not-found, error); not-found mark always accompanied by the not-found error and reset when another error overwrites it, volunteered keys registered before the error epilogue; results read from a record only after wait and under err == nil, hits inserted under the looked-up key, misses return (record.value, record.err); BulkGet dispatches at most once with only its own records and skips duplicates before the lookup. Does not decide exact result maps for arbitrary loader shapes beyond these guards.",
     note=TB + "Loaders are opaque user functions.",
     ref="DESIGN.md §4 C10, Appendix B4")
@@ -86,7 +86,7 @@ CLAIMED["C04"] = dict(
     note=TB + "The eviction callback's effect on the policy is modelled as havoc of the policy's fields.",
     ref="DESIGN.md §4 C04")
 CLAIMED["C05"] = dict(
-    technique="static analysis: " + PS + " (task per table change, handler tables, transplant, deque link hygiene), eviction-lock context analysis with call-site/parameter correlation, writer census",
+    technique="static analysis: " + PS + " (task per table change, handler tables, transplant, queue transfers with symbolic counter deltas, deque link hygiene), shape analysis of the intrusive deque (each path summary of every mutator applied to the canonical list shapes must yield the specified well-formed list), eviction-lock context analysis for writes and reads with call-site/parameter correlation, writer census",
     text="Decides per path: exactly one matching add/update/delete task per table change (none when unchanged), retire once; runTask applies each kind completely to both policies; add links only alive nodes; update transplants only from a contained predecessor, else window entry; the eviction callback unlinks, unschedules and kills on all paths and reports iff it removed; the deque clears links of removed/replaced nodes and keeps len in step; all policy/deque/wheel/sketch/node-link writes and both buffer consumers run with the eviction lock held (token hand-off and constructor exemptions named); no task dropped on enqueue. Does not decide counter = sum(weights) or set(Coldest) = set(All) as run-time facts.",
     note=TB + "Assumes tasks are replayed exactly once in producer order (C16).",
     ref="DESIGN.md §4 C05")
@@ -101,7 +101,7 @@ CLAIMED["C02"] = dict(
     note=TB + "Assumes sync.Mutex / sync/atomic semantics.",
     ref="DESIGN.md §4 C02")
 CLAIMED["C19"] = dict(
-    technique="static analysis: guard/dominance rules on the persistence loops, field-fill census of the snapshot, iterator filter guards, sibling boundary agreement",
+    technique="static analysis: guard/dominance rules on the persistence loops, field-fill census of the snapshot, iterator filter guards, lazily-evaluated-iterator rule (list state read only under the lock or inside the iterator closures), sibling boundary agreement",
     text="Decides structural necessary conditions of save/load fidelity: the snapshot carries key, value, weight and both deadlines of the node; the saved entries come from the eviction-order iterator, which runs maintenance under the lock on every path and yields only alive, unexpired entries; the loader skips deadline <= now (HasExpired's boundary in all variants), re-inserts with Set, then restores max(1, deadline - now) with the same clock sample under the right flag/sentinel guards; both loops stop at the maximum and account weights. Round-trip equality on concrete runs and gob itself are NOT decided.",
     note=TB + "Assumes Set/SetExpiresAfter/SetRefreshableAfter behave as C01/C12 decide.",
     ref="DESIGN.md §4 C19")
